@@ -73,6 +73,20 @@ func harnessOverlay(verifRoot string, dirs []string) (map[string][]byte, error) 
 			return nil, fmt.Errorf("no harness files for %s", d)
 		}
 		ov[filepath.Join(repoRoot, d, "zz_vx_shim.go")] = []byte(strings.Replace(string(shim), "package PKG", "package "+pkgName, 1))
+		// shared helper files (scripted conn, frames) for packages above socket/
+		switch d {
+		case "socket", "utils", "codec", "xfer":
+		default:
+			sh, _ := filepath.Glob(filepath.Join(verifRoot, "harness", "shared", "*.go.txt"))
+			for _, f := range sh {
+				b, err := os.ReadFile(f)
+				if err != nil {
+					return nil, err
+				}
+				name := strings.TrimSuffix(filepath.Base(f), ".txt")
+				ov[filepath.Join(repoRoot, d, name)] = []byte(strings.Replace(string(b), "package PKG", "package "+pkgName, 1))
+			}
+		}
 	}
 	// QUIC stub so that the root package type-checks/links without qtls
 	if b, err := os.ReadFile(filepath.Join(verifRoot, "overlay", "quic_stub.go.txt")); err == nil {
@@ -420,7 +434,7 @@ func (i *interpreter) runPath(p *program, pkg *ssa.Package, fn *ssa.Function, pr
 		st.pathsEngine++
 		st.unsupportedMsgs[i.path.ended+": "+i.path.endMsg]++
 	}
-	if i.path.ended == "ok" || i.path.ended == "stop" {
+	if i.path.ended == "ok" || i.path.ended == "stop" || i.path.ended == "fatal" {
 		for c := range i.path.covers {
 			st.covers[c]++
 		}
